@@ -173,7 +173,7 @@ macro_rules! to_signed_bytes_shape {
 macro_rules! from_u32_shape {
     ($name:ident, $n:expr, $w:expr) => {
         #[kani::proof]
-        #[kani::unwind(12)]
+        #[kani::unwind(34)]
         #[kani::stub(alloc::vec::Vec::shrink_to_fit, vc::noop_shrink)]
         fn $name() {
             let s: [u32; $n] = kani::any();
@@ -211,7 +211,7 @@ macro_rules! from_u32_shape {
 macro_rules! to_digits_shape {
     ($name:ident, $neg:expr, $l:expr) => {
         #[kani::proof]
-        #[kani::unwind(12)]
+        #[kani::unwind(34)]
         #[kani::stub(alloc::vec::Vec::with_capacity, vc::vec_with_capacity_64)]
         fn $name() {
             let a0: [u64; $l] = vc::any_canon::<$l>();
